@@ -536,8 +536,28 @@ func (i *interpreter) hashBytes(domain string, data []value, n int, native func(
 	// against every earlier application (symbolic or concrete) in the same domain.
 	if ps.hashSymbolic == nil {
 		ps.hashSymbolic = map[string]bool{}
+		ps.hashMemo = map[string]*hashApp{}
 	}
 	ps.hashSymbolic[domain] = true
+	// functional consistency by construction: syntactically identical input => same output terms
+	var mk strings.Builder
+	mk.WriteString(domain)
+	for _, b := range data {
+		t := ps.lift(b)
+		if t.op == OpConst {
+			fmt.Fprintf(&mk, "|c%d", t.cval)
+		} else {
+			fmt.Fprintf(&mk, "|t%d", t.id)
+		}
+	}
+	memoKey := mk.String()
+	if prev, ok := ps.hashMemo[memoKey]; ok {
+		out := make([]value, n)
+		for k := 0; k < n; k++ {
+			out[k] = &sym{t: prev.out[k], k: types.Uint8}
+		}
+		return out
+	}
 	idx := len(ps.hashApps[domain])
 	app := &hashApp{in: append([]value(nil), data...)}
 	for k := 0; k < n; k++ {
@@ -546,7 +566,15 @@ func (i *interpreter) hashBytes(domain string, data []value, n int, native func(
 	for _, prev := range ps.hashApps[domain] {
 		ps.hashAxiom(app, prev, n)
 	}
+	// no guessing (restricted form): a digest is never the all-zero string, which the
+	// code uses as a distinguished "no value" constant (merkle.ZeroDigest, bottom key)
+	allZero := ps.ts.Bool(true)
+	for k := 0; k < n; k++ {
+		allZero = ps.ts.And(allZero, ps.ts.Eq(app.out[k], ps.ts.BV(0, 8)))
+	}
+	ps.axiom(ps.ts.Not(allZero))
 	ps.hashApps[domain] = append(ps.hashApps[domain], app)
+	ps.hashMemo[memoKey] = app
 	out := make([]value, n)
 	for k := 0; k < n; k++ {
 		out[k] = &sym{t: app.out[k], k: types.Uint8}
